@@ -17,10 +17,10 @@ from harness.gallina import Tag
 ID = "C25"
 COQ_DIRS = ["C25"]
 PROPERTY_FILE = "C25/Property.v"
-RUN_IMPORTS = "From TV Require Import C25.Model C25.Run."
-RUN_FN = "run_case"
-CHECK_FN = "check_case"
-INPUT_TYPE = "(list op * ending)"
+RUN_IMPORTS = "From TV Require Import C25.Model C25.Run C25.ModelP4."
+RUN_FN = "run_case_raw"
+CHECK_FN = "check_case_raw"
+INPUT_TYPE = "(list rawop * ending)"
 
 NOW = 1000000.0          # the virtual clock of harness.vclock.run_virtual
 SECRET = "c25-secret"
@@ -33,7 +33,7 @@ TRUSTED_BASE = [
 ]
 ASSUMPTIONS = [
     "legacy **kwargs of set_cookie (case-insensitive Morsel keys, comment/version) are outside the model; they bypass the attribute check (Domain='x; Secure' injects an attribute) and a CookieError raised there loses an earlier setting of the same name",
-    "argument types: name/value/domain/path/samesite are str (bytes values only through set_signed_cookie), max_age is int, expires is None or an int timestamp (any sign and size); `if expires:` drops expires=0; the error-class thresholds of an unrepresentable expiry (ValueError / OSError / OverflowError) are those of CPython 3.12 on 64-bit Linux",
+    "argument types: name and value are str or bytes (escape.native_str is modelled), domain/path/samesite are str, max_age is int, expires is None or an int timestamp (any sign and size); `if expires:` drops expires=0; the error-class thresholds of an unrepresentable expiry (ValueError / OSError / OverflowError) are those of CPython 3.12 on 64-bit Linux",
     "scope: set_cookie calls made before the response head is flushed (h_written = false is an explicit hypothesis of C25_any_ending_sends_the_jar); after flush() no header-setting API takes effect, by RequestHandler's general contract",
 ]
 RULE = ("one case = call sequence + how the request ends (return, Finish, HTTPError(code), other exception, send_error(code), redirect); "
@@ -56,6 +56,42 @@ def call(kind="set", name="a", value="v", domain=None, expires=None, path="/", m
             "expires_days": expires_days}
 
 
+def bcall(name_b=None, value_b=None, **kw):
+    """a call whose name and/or value argument is a bytes object (hex in the JSON case); the
+    str fields keep a readable shadow (decoded with errors='replace') for histograms only"""
+    op = call(**kw)
+    if name_b is not None:
+        op["name_b"] = bytes(name_b).hex()
+        op["name"] = bytes(name_b).decode("utf-8", "replace")
+    if value_b is not None and op["kind"] != "clear":
+        op["value_b"] = bytes(value_b).hex()
+        op["value"] = bytes(value_b).decode("utf-8", "replace")
+    return op
+
+
+def _args(op):
+    """(name argument, value argument) exactly as passed to Tornado"""
+    n = bytes.fromhex(op["name_b"]) if op.get("name_b") is not None else op["name"]
+    v = bytes.fromhex(op["value_b"]) if op.get("value_b") is not None else op["value"]
+    return n, v
+
+
+def _decoded(op):
+    """(name, value) after native_str, or None when an argument is not valid UTF-8"""
+    out = []
+    n, v = _args(op)
+    if op["kind"] != "set":
+        v = ""      # clear_cookie passes value=""; set_signed_cookie base64-encodes the value inside the signed text
+    for a in (n, v):
+        if isinstance(a, bytes):
+            try:
+                a = a.decode("utf-8")
+            except UnicodeDecodeError:
+                return None
+        out.append(a)
+    return tuple(out)
+
+
 def mk(*ops, end=None):
     return {"ops": list(ops), "end": list(end) if end else ["return", 0]}
 
@@ -70,7 +106,11 @@ NOW_TS = calendar.timegm(FIXED_NOW.utctimetuple())
 def model_call(op):
     """The `call` record the model is given for one op (signed value computed by Tornado)."""
     kind = op["kind"]
-    value = op["value"]
+    name_arg, value_arg = _args(op)
+    dec = _decoded(op)
+    name, value = dec if dec is not None else (op["name"], op["value"])
+    if kind != "set":
+        value = op["value"]
     max_age = op["max_age"]
     expires = op["expires"]
     if kind == "clear":
@@ -78,8 +118,8 @@ def model_call(op):
         max_age = None
     elif kind == "signed":
         from tornado import web
-        value = web.create_signed_value(SECRET, op["name"], op["value"], clock=lambda: NOW).decode("utf-8")
-    return {"name": op["name"], "value": value, "domain": op["domain"], "expires": expires,
+        value = web.create_signed_value(SECRET, name_arg, value_arg, clock=lambda: NOW).decode("utf-8", "replace")
+    return {"name": name, "value": value, "domain": op["domain"], "expires": expires,
             "expires_days": op["expires_days"], "kind": kind, "path": op["path"],
             "max_age": max_age, "httponly": op["httponly"], "secure": op["secure"], "samesite": op["samesite"]}
 
@@ -112,16 +152,26 @@ def _gopt(x):
     return G.goption(x, G.gbytes, "str")
 
 
+def _garg(a):
+    return "(ABytes %s)" % G.gbytes(a) if isinstance(a, bytes) else "(AStr %s)" % G.gbytes(a)
+
+
 def coq_input(case):
     out = []
     for op in case["ops"]:
         c = model_call(op)
         ctor = {"set": "OpSet", "clear": "OpClear", "signed": "OpSigned"}[op["kind"]]
-        out.append("%s (mkCall %s %s %s %s %s %s %s %s %s %s %s)" % (
-            ctor, G.gbytes(c["name"]), G.gbytes(c["value"]), _gopt(c["domain"]), G.goption(c["expires"], G.gz, "Z"),
+        name_arg, value_arg = _args(op)
+        if op["kind"] == "signed":
+            value_arg = c["value"]          # the (opaque) signed text is what reaches set_cookie
+        elif op["kind"] == "clear":
+            value_arg = ""
+        out.append("(mkRaw (%s (mkCall (@nil N) (@nil N) %s %s %s %s %s %s %s %s %s)) %s %s)" % (
+            ctor, _gopt(c["domain"]), G.goption(c["expires"], G.gz, "Z"),
             G.goption(c["expires_days"], G.gz, "Z"), G.gz(NOW_TS), _gopt(c["path"]),
-            G.goption(c["max_age"], G.gz, "Z"), G.gbool(c["httponly"]), G.gbool(c["secure"]), _gopt(c["samesite"])))
-    return "(%s, %s)" % (G.glist(out, "op"), _gending(case.get("end")))
+            G.goption(c["max_age"], G.gz, "Z"), G.gbool(c["httponly"]), G.gbool(c["secure"]), _gopt(c["samesite"]),
+            _garg(name_arg), _garg(value_arg)))
+    return "(%s, %s)" % (G.glist(out, "rawop"), _gending(case.get("end")))
 
 
 ENDINGS = [("return", 0), ("finish", 0), ("exception", 0), ("redirect", 0), ("redirect", 1)] + \
@@ -190,20 +240,23 @@ def run_impl(case):
             for op in ops:
                 kw = dict(domain=op["domain"], path=op["path"], httponly=op["httponly"], secure=op["secure"],
                           samesite=op["samesite"])
+                name_arg, value_arg = _args(op)
                 try:
                     if op["kind"] == "set":
-                        self.set_cookie(op["name"], op["value"], expires=op["expires"], max_age=op["max_age"],
+                        self.set_cookie(name_arg, value_arg, expires=op["expires"], max_age=op["max_age"],
                                         expires_days=op["expires_days"], **kw)
                     elif op["kind"] == "clear":
                         if op["expires_days"] is not None:
                             kw["expires_days"] = op["expires_days"]
-                        self.clear_cookie(op["name"], **kw)
+                        self.clear_cookie(name_arg, **kw)
                     else:
                         if op["expires"] is not None:
                             kw["expires"] = op["expires"]
-                        self.set_signed_cookie(op["name"], op["value"], expires_days=op["expires_days"],
+                        self.set_signed_cookie(name_arg, value_arg, expires_days=op["expires_days"],
                                                max_age=op["max_age"], **kw)
                     res.append(Tag("Ok"))
+                except UnicodeDecodeError:
+                    res.append(Tag("UnicodeDecodeError"))
                 except http.cookies.CookieError:
                     res.append(Tag("CookieError"))
                 except ValueError:
@@ -297,6 +350,8 @@ def _expected(case, o):
         return None
     acc = []
     for op, r in zip(case["ops"], res):
+        if (_decoded(op) is None) != (r == "UnicodeDecodeError"):
+            return None                 # undecodable bytes must raise UnicodeDecodeError, and only they
         if r == "Ok":
             c = model_call(op)
             if op["kind"] == "clear":
@@ -441,6 +496,11 @@ def corpus_cases():
         mk(call(value="1"), call(name="b", value="2"), call(value="\u20ac")),   # a call failing the final header check keeps the earlier setting (moved last)
         mk(call(value="1"), call(value="2", domain="\u0100")), 
         mk(call(value="\u20ac"), call(value="3")),
+        # bytes arguments (escape.native_str): decoded as strict UTF-8, UnicodeDecodeError before the jar is touched
+        mk(bcall(name_b=b"sid", value_b="caf\u00e9;x".encode()), bcall(name_b=b"b", value_b=b""), bcall(value_b=b"\xff")),
+        mk(call(value="1", secure=True), bcall(name_b=b"a", value_b=b"\xc3\x28"), bcall(name_b=b"\xe2\x82", value_b=b"v"),
+           bcall(name_b=b"b", value_b="\u20ac".encode()), bcall(kind="clear", name_b=b"gone"), bcall(kind="clear", name_b=b"\xc0\xaf"),
+           bcall(kind="signed", name_b=b"tok", value_b=b"\xff\x00raw"), bcall(kind="signed", name_b=b"\xed\xa0\x80", value_b=b"v")),
         # seeded C25_3: an explicit expires wins over expires_days (also set_signed_cookie's default 30, clear_cookie + expires_days)
         mk(call(value="v", expires=1000000000, expires_days=7), call("signed", name="s", value="v", expires=1000000000),
            call("clear", name="gone", expires_days=30), call(name="d", value="v", expires=0, expires_days=2),
@@ -511,6 +571,42 @@ def gen_cases(rng, tier):
     stamps += [rng.randrange(-62135596800, 253402300800) for _ in range(40 if tier == "quick" else 600)]
     for i in range(0, len(stamps), 4):
         out.append(mk(*[call(name="t%d" % k, value="v", expires=t) for k, t in enumerate(stamps[i:i + 4])]))
+    # bytes arguments: valid UTF-8 of every text class, every malformed shape, in name / value / both, all kinds
+    bad = [b"\xff", b"\x80", b"\xc3", b"\xc3\x28", b"\xc0\xaf", b"\xc1\xbf", b"\xe2\x82", b"\xe2\x28\xa1", b"\xe0\x80\xaf",
+           b"\xed\xa0\x80", b"\xed\xbf\xbf", b"\xf0\x9f\x98", b"\xf0\x8f\xbf\xbf", b"\xf4\x90\x80\x80", b"\xf5\x80\x80\x80",
+           b"ok\xfe", b"\xffok", b"a\xc3\xa9\xc3"]
+    good = [b"", b"a", b"v1", "caf\u00e9".encode(), "\u00ff\u0080".encode(), "\u20ac".encode(), "\U0001f600".encode(),
+            b'a;b,"c"\\=', b"x y", b"\x7f", "\ud7ff\ue000".encode(), "\U0010ffff".encode(), b"\xc2\x80", b"\xdf\xbf", b"\xe0\xa0\x80",
+            b"\xef\xbf\xbf", b"\xf0\x90\x80\x80", b"\xf4\x8f\xbf\xbf"]
+    for b in bad + good:
+        out.append(mk(call(name="keep", value="1"), bcall(name_b=b"keep", value_b=b), bcall(name_b=b if b else b"n", value_b=b"v"),
+                      bcall(kind="clear", name_b=b or b"c"), bcall(kind="signed", name_b=b"s", value_b=b),
+                      bcall(kind="signed", name_b=b if b else b"t", value="v")))
+    for _ in range(120 if tier == "quick" else 1500):
+        ops = []
+        for _k in range(rng.choice([1, 2, 3])):
+            op = _rand_call(rng)
+            r = rng.random()
+            nb = op["name"].encode("utf-8", "surrogatepass") if r < 0.6 else None
+            vb = op["value"].encode("utf-8", "surrogatepass") if rng.random() < 0.7 else None
+            if rng.random() < 0.2:
+                junk = rng.choice(bad)
+                if rng.random() < 0.5 or nb is None:
+                    vb = (vb or b"") + junk
+                else:
+                    nb = nb + junk
+            ops.append(bcall(name_b=nb, value_b=vb, **{k: v for k, v in op.items() if k not in ("name", "value")}
+                             , name=op["name"], value=op["value"]))
+        out.append(mk(*ops, end=ending()))
+    if tier == "thorough":      # every 1- and 2-byte string as a value; every byte as a 1-byte name
+        for b0 in range(256):
+            out.append(mk(bcall(name_b=b"n", value_b=bytes([b0])), bcall(name_b=bytes([b0]), value_b=b"v")))
+        lead = [0x00, 0x41, 0x7f, 0x80, 0xbf, 0xc0, 0xc1, 0xc2, 0xdf, 0xe0, 0xed, 0xef, 0xf0, 0xf4, 0xf5, 0xff]
+        for b0 in lead:
+            for b1 in lead + [0x9f, 0xa0, 0x8f, 0x90]:
+                for b2 in (None, 0x80, 0xbf, 0x41):
+                    raw = bytes([b0, b1] + ([b2] if b2 is not None else []))
+                    out.append(mk(bcall(name_b=b"n", value_b=raw)))
     # expires x expires_days x kind: the precedence rule on every combination
     for kind in ("set", "signed", "clear"):
         for ex in (None, 0, 1, 1000000000, 253402300799, 253402300800, -5):
@@ -554,6 +650,8 @@ def classify(case, o):
     yield "calls=%d" % len(case["ops"])
     for op in case["ops"]:
         yield "kind=" + op["kind"]
+        if op.get("name_b") is not None or op.get("value_b") is not None:
+            yield "bytes-arg=" + ("undecodable" if _decoded(op) is None else "utf8")
     if isinstance(o, list) and isinstance(o[0], list):
         for r in o[0]:
             yield "result=" + str(r)
@@ -607,6 +705,10 @@ def shrink(case):
 
 def _shrink_ops(case):
     ops = case["ops"]
+    for i, op in enumerate(ops):        # bytes argument -> its str shadow
+        for key in ("name_b", "value_b"):
+            if op.get(key) is not None:
+                yield {"ops": ops[:i] + [{k: v for k, v in op.items() if k != key}] + ops[i + 1:]}
     if len(ops) > 1:
         for i in range(len(ops)):
             yield {"ops": ops[:i] + ops[i + 1:]}
